@@ -35,10 +35,13 @@ def raise {α : Type} (cls : String) : Except CondErr α := .error (excOf cls)
 def outOfFuel {α : Type} : Except CondErr α := .error (.raised "OutOfFuel")
 
 /-- does `except C1, C2, …` catch the exception?  `Exception` catches everything raised here; otherwise by class name
-    (the translator accepts only `Exception`, `ConditionTypeError` and leaf builtin classes in a handler) -/
+    (the translator accepts only `Exception`, `ConditionTypeError` and leaf builtin classes in a handler).  A `ConditionTypeError` is
+    `.typeMismatch` and nothing else: `.raised "ConditionTypeError"` is not a value any translated statement produces (`raise
+    ConditionTypeError(…)` is `excOf`'s `.typeMismatch`), and it is not what the handler name `ConditionTypeError` stands for — the
+    model's `condOutcome` lets every `.raised cls` through, whatever the text of `cls` -/
 def catches (classes : List String) : CondErr → Bool
   | .typeMismatch => classes.contains "Exception" || classes.contains "ConditionTypeError"
-  | .raised c => classes.contains "Exception" || classes.contains c
+  | .raised c => classes.contains "Exception" || (c != "ConditionTypeError" && classes.contains c)
 
 /-- `try: <body> except (C1, …): <handler>` where body and handler both end in `return`/`raise` on every path -/
 def tryExcept (body : Res) (classes : List String) (handler : Res) : Res :=
